@@ -53,8 +53,11 @@ type DeferredCarWriter struct {
 	f      *os.File
 	closed bool
 	w      carstorage.WritableCar
-	putCb  []putCb
-	opts   []carv2.Option
+	// initErr is set when writing the CAR header to a caller-supplied stream failed: part
+	// of the header may already be on the stream, so starting over would corrupt it.
+	initErr error
+	putCb   []putCb
+	opts    []carv2.Option
 }
 
 // NewDeferredCarWriterForPath creates a DeferredCarWriter that will write to a
@@ -143,6 +146,9 @@ func (dcw *DeferredCarWriter) Put(ctx context.Context, key string, content []byt
 
 // writer()
 func (dcw *DeferredCarWriter) writer() (carstorage.WritableCar, error) {
+	if dcw.initErr != nil {
+		return nil, dcw.initErr
+	}
 	if dcw.w == nil {
 		outStream := dcw.outStream
 		if outStream == nil {
@@ -155,6 +161,9 @@ func (dcw *DeferredCarWriter) writer() (carstorage.WritableCar, error) {
 		}
 		w, err := carstorage.NewWritable(outStream, dcw.roots, dcw.opts...)
 		if err != nil {
+			if dcw.outStream != nil {
+				dcw.initErr = err
+			}
 			return nil, err
 		}
 		dcw.w = w
